@@ -92,6 +92,10 @@ def run(ctx):
     nf, jobs, per_case = fsfam.fault_runs(ctx, drv, bl, errnos=("EIO", "ENOSPC") if not thorough else fsfam.ERRNOS)
     fsfam.judge_traces(ctx, per_case, "faulted")
     ctx.coverage["fault_traces_validated"] = nf
+    # TwoWriters.tla: serialised operations never yield two files for one user or a stray empty reservation (MC_TwoWriters_serial),
+    # unserialised ones do (refuted variants); every pair of operations run one after the other by two real processes
+    tw = [o for o in fsfam.two_writers_model(ctx, thorough) if o["cut"] in ("statA", "done")]
+    fsfam.two_writer_runs(ctx, drv, tw, {"torn": "C16", "loser": "C15", "others": "C15", "seq": "C16", "crash": "C16"})
     ctx.coverage["cli_runs"] = cli_leg(ctx)
     # a running agent never switches to a directory that fails the check (SIGHUP with configurations naming a directory without
     # administrator, with a stray file, or whose only administrator's parameter set is no longer configured): Reload.tla
